@@ -308,7 +308,7 @@ impl Engine for Updates {
             let expect_err = before.as_ref().map(|b| must_fail(e, b)).unwrap_or(false);
             let mut rebuilt: Vec<u8> = vec![];
             let mut rebuilt_called = false;
-            let disk_path = format!("/verif/.scratch/c10-{:?}-{}.flac", std::thread::current().id(), step).replace(['(', ')'], "");
+            let disk_path = format!("{}/.scratch/c10-{:?}-{}.flac", crate::util::root(), std::thread::current().id(), step).replace(['(', ')'], "");
             let res = guarded(|| -> Result<bool, flac_codec::Error> {
                 let f = |bl: &mut BlockList| -> Result<(), flac_codec::Error> {
                     apply_edit(e, bl)?;
@@ -316,7 +316,7 @@ impl Engine for Updates {
                     Ok(())
                 };
                 if c.on_disk {
-                    std::fs::create_dir_all("/verif/.scratch").ok();
+                    std::fs::create_dir_all(format!("{}/.scratch", crate::util::root())).ok();
                     std::fs::write(&disk_path, &old).map_err(flac_codec::Error::Io)?;
                     let r = update(&disk_path, f);
                     let now = std::fs::read(&disk_path).map_err(flac_codec::Error::Io)?;
